@@ -9,7 +9,7 @@ bech32, `E` the empty string.
 Ops (all stateless; every line carries its own grants):
   wp mt=<T> req=<parties> avail=<parties> roles=<roles> signers=<addrs> grants=<grants>
   wo mt=<T> required=<addrs> signers=… grants=…
-  wscope existing=<scope|none> proposed=<scope> roles=… signers=… grants=…
+  wscope existing=<scope|none> proposed=<scope> roles=… [newroles=…] signers=… grants=…
   dscope scope=<scope> roles=<roles|none> signers=… grants=…
   upd mt=<T> scope=<scope> roles=… signers=… grants=…
   owners mt=<T> scope=<scope> proposed=<parties> roles=… signers=… grants=…
@@ -17,7 +17,7 @@ Ops (all stateless; every line carries its own grants):
   wrecord scope=<scope> session=<parties> old=<parties|none> roles=… signers=… grants=…
   drecord scope=<scope|none> roles=<roles|none> signers=… grants=…
 parties `A:5:o|B:2:r` (address:role:o(ptional)/r(equired)), scope `<rollup 0/1>/<other>/<parties>`,
-grants `granter>grantee:T|…`, `-` = empty list.
+grants `granter>grantee:T|…` (`T#k` count authorization, `T!` expired), `-` = empty list.
 -/
 import PvModel.SignersSpec
 -- registry: signers PvModel.Signers.driver
@@ -52,12 +52,16 @@ def parseScope? (s : String) : Option Scope :=
 def parseOpt? {α} (p : String → Option α) (s : String) : Option (Option α) :=
   if s = "none" then some none else (p s).map some
 
+/-- `g>e:T` (generic), `g>e:T#k` (count authorization with k ≥ 1 uses left: accepts like a
+generic one within one call), `g>e:T!` (expired: no grant). -/
 def parseGrants? (s : String) : Option (List (Addr × Addr × MsgType)) :=
-  (splitList s).mapM fun g =>
+  (splitList s).filterMapM fun g =>
     match g.splitOn ":" with
     | [pair, t] =>
       match pair.splitOn ">" with
-      | [granter, grantee] => some (parseAddr granter, parseAddr grantee, t)
+      | [granter, grantee] =>
+        if t.endsWith "!" then some none
+        else some (some (parseAddr granter, parseAddr grantee, (t.splitOn "#").headD t))
       | _ => none
     | _ => none
 
@@ -129,6 +133,8 @@ structure Clauses where
   rolesCovered : Bool := true
   /-- smart-contract signer positions and authorizations -/
   smartContract : Bool := true
+  /-- do not judge rejections (only "accepted only when …" is checked) -/
+  rejectOk : Bool := false
 
 def Clauses.ofReq (env : Env) (mt : MsgType) (signers : List Addr) (used : List Addr) (req : Spec.Req) :
     Clauses :=
@@ -156,7 +162,7 @@ def verdict (tag : String) (c : Clauses) (impl : String) : String :=
     let all := c.optionalOk && c.partiesPresent && c.rolesPresent && c.provMay && c.requiredCovered
       && c.rolesCovered && c.smartContract
     -- a rejection is wrong only when every documented requirement is met
-    if all then s!"fail:{tag}:rejected_valid:{if impl.startsWith "err:" then (impl.drop 4).toString else impl}" else "ok"
+    if all && !c.rejectOk then s!"fail:{tag}:rejected_valid:{if impl.startsWith "err:" then (impl.drop 4).toString else impl}" else "ok"
 
 def usedOf (r : Except Err (List PartyDetails)) : List Addr :=
   match r with
@@ -192,19 +198,32 @@ def stepWords (ws : List String) : Option Parsed := do
   | some "wscope" =>
     let existing ← (kv ws "existing") >>= parseOpt? parseScope?
     let proposed ← (kv ws "proposed") >>= parseScope?
+    -- `roles`: required by the specification of the stored scope; `newroles` (optional): by
+    -- the specification the proposed scope names, when it names another one
     let roles ← (kv ws "roles") >>= parseRoles?
+    let newRoles ← match kv ws "newroles" with
+      | some s => parseRoles? s
+      | none => some roles
+    let specChange := (kv ws "newroles").isSome
+    -- the specification id is one of the "other" fields `Scope.Equals` compares
+    let proposed := if specChange then { proposed with other := proposed.other + 1000 } else proposed
     let mt := "WriteScope"
-    let r := validateWriteScope env existing proposed roles signers
+    -- the code reads every role requirement from the PROPOSED scope's specification
+    let r := validateWriteScope env existing proposed newRoles signers
     let used := match existing with
       | none => []
       | some ex =>
-        if ex.rollup then usedOf (validateAllRequiredPartiesSigned env mt ex.owners ex.owners roles signers)
+        if ex.rollup then usedOf (validateAllRequiredPartiesSigned env mt ex.owners ex.owners newRoles signers)
         else if !ex.equals proposed then usedOf (validateAllRequiredSigned env mt (getPartyAddresses ex.owners) signers)
         else []
+    -- the documented requirement: the roles of the stored scope's specification sign
     let c := Clauses.ofReq env mt signers used (Spec.writeScopeReq existing proposed roles)
     let pv := Spec.provenanceRoleOk env proposed.owners
-    some ⟨showUnit r, "wscope",
-      { c with rolesPresent := Spec.rolesPresent proposed.owners roles, provMust := pv, provMay := pv }⟩
+    let c := { c with rolesPresent := Spec.rolesPresent proposed.owners newRoles, provMust := pv, provMay := pv }
+    if specChange then
+      -- only the "only when" direction is judged when the specification changes
+      some ⟨showUnit r, "wscope_spec_change", { c with rejectOk := true }⟩
+    else some ⟨showUnit r, "wscope", c⟩
   | some "dscope" =>
     let scope ← (kv ws "scope") >>= parseScope?
     let roles ← (kv ws "roles") >>= parseOpt? parseRoles?
